@@ -119,32 +119,37 @@ def escaped_string_re():
 
 
 class Term:
-    """a terminal = union of alternatives (body regex, \\b before?, \\b after?)"""
+    """a terminal = union of alternatives (body regex, word boundary before?, forbidden-next-character class or None).
+    A trailing `\\b` (after a word character) forbids a word character next; a trailing negative lookahead `(?!class)`
+    forbids that class next."""
 
     def __init__(self, name: str, priority: int, regexp: str):
         self.name, self.priority, self.regexp = name, priority, regexp
-        self.alts: List[Tuple[Any, bool, bool]] = []
+        self.alts: List[Tuple[Any, bool, Any]] = []
         if name == 'ESCAPED_STRING':
-            self.alts = [(escaped_string_re(), False, False)]
+            self.alts = [(escaped_string_re(), False, None)]
             self.approx = True
         else:
             self.approx = False
             for seq in self._alternatives(list(sre_parse.parse(regexp))):
-                bb = ba = False
+                bb = False
+                forbid = None
                 if seq and seq[0][0] is sre_c.AT and seq[0][1] is sre_c.AT_BOUNDARY:
                     bb, seq = True, seq[1:]
                 if seq and seq[-1][0] is sre_c.AT and seq[-1][1] is sre_c.AT_BOUNDARY:
-                    ba, seq = True, seq[:-1]
+                    forbid, seq = WORD, seq[:-1]
+                elif seq and seq[-1][0] is sre_c.ASSERT_NOT and seq[-1][1][0] == 1:
+                    forbid, seq = _tr(list(seq[-1][1][1])), seq[:-1]
                 for op, av in _walk(seq):
-                    if op is sre_c.AT:
+                    if op in (sre_c.AT, sre_c.ASSERT, sre_c.ASSERT_NOT):
                         raise Untranslatable(f'assertion inside {name}: {regexp}')
-                self.alts.append((_tr(seq), bb, ba))
-        self.re = _union([a[0] for a in self.alts])  # language of whole tokens (boundaries are about the neighbours)
-        self.b_after = all(a[2] for a in self.alts)
+                self.alts.append((_tr(seq), bb, forbid))
+        self.re = _union([a[0] for a in self.alts])  # language of whole tokens (assertions are about the neighbours)
+        self.b_after = all(a[2] is not None for a in self.alts)
 
     def _alternatives(self, seq) -> List[list]:
         """alternatives of a pattern, expanding a trailing branch/group (sre_parse factors common prefixes out of
-        alternations: 'implies\\b|iff\\b' becomes i(?:mplies\\b|ff\\b)), so that each may carry its own trailing \\b"""
+        alternations: 'implies\\b|iff\\b' becomes i(?:mplies\\b|ff\\b)), so that each may carry its own trailing assertion"""
         seq = list(seq)
         if not seq:
             return [seq]
@@ -156,22 +161,29 @@ class Term:
             return out
         if op is sre_c.SUBPATTERN:
             return self._alternatives(seq[:-1] + list(av[3]))
+        # a shared trailing assertion after a group: (?:a|b)\b
+        if len(seq) >= 2 and (op is sre_c.AT or op is sre_c.ASSERT_NOT) and seq[-2][0] in (sre_c.BRANCH, sre_c.SUBPATTERN):
+            return [alt + [seq[-1]] for alt in self._alternatives(seq[:-1])]
         return [seq]
 
     def prefix_match(self, w):
-        """z3 formula: this terminal matches some non-empty prefix of string w (boundary side conditions included)"""
+        """z3 formula: this terminal matches some non-empty prefix of string w (side conditions on the next character included)"""
         alts = []
-        for r, bb, ba in self.alts:
-            if not ba:
+        for r, bb, forbid in self.alts:
+            if forbid is None:
                 alts.append(z3.InRe(w, z3.Concat(r, SIGMA_STAR)))
             else:
-                # body followed by end of input or a non-word character (keyword bodies end in a word character)
-                alts.append(z3.Or(z3.InRe(w, r), z3.InRe(w, z3.Concat(r, z3.Diff(ANYCHAR, WORD), SIGMA_STAR))))
+                alts.append(z3.Or(z3.InRe(w, r), z3.InRe(w, z3.Concat(r, z3.Diff(ANYCHAR, forbid), SIGMA_STAR))))
         return z3.Or(*alts)
 
-    def inner_prefix(self, p):
-        """p is matched by an alternative that may end between two word characters (no trailing \\b)"""
-        alts = [z3.InRe(p, r) for r, bb, ba in self.alts if not ba]
+    def inner_prefix(self, p, nxt):
+        """p is matched by an alternative whose assertion (if any) allows the word character `nxt` to follow"""
+        alts = []
+        for r, bb, forbid in self.alts:
+            if forbid is None:
+                alts.append(z3.InRe(p, r))
+            else:
+                alts.append(z3.And(z3.InRe(p, r), z3.Not(z3.InRe(nxt, forbid))))
         return z3.Or(*alts) if alts else z3.BoolVal(False)
 
 
@@ -250,7 +262,8 @@ def keyword_split_queries(model: LexModel, timeout_ms: int = 10000):
             # T matches a proper prefix p of w that ends in a word character, and w continues with a word character
             p = z3.String('p')
             # (alternatives with a trailing \\b cannot end between two word characters)
-            s.add(z3.PrefixOf(p, w), z3.Length(p) < z3.Length(w), z3.Length(p) > 0, T.inner_prefix(p))
+            nxt = z3.SubString(w, z3.Length(p), 1)
+            s.add(z3.PrefixOf(p, w), z3.Length(p) < z3.Length(w), z3.Length(p) > 0, T.inner_prefix(p, nxt))
             for E in sc.terms[:i]:
                 s.add(z3.Not(E.prefix_match(w)))
             kind = 'b'
@@ -325,8 +338,8 @@ def validate_translation(model: LexModel, samples: int = 6) -> List[str]:
                 except UnicodeEncodeError:
                     continue
                 py = rx.fullmatch(v) is not None
-                if '\\b' in T.regexp:
-                    py = re.fullmatch(T.regexp.replace('\\b', ''), v) is not None
+                if '\\b' in T.regexp or '(?!' in T.regexp:
+                    py = re.fullmatch(re.sub(r'\(\?![^)]*\)', '', T.regexp.replace('\\b', '')), v) is not None
                 if py != positive:
                     problems.append(f'{T.name}: z3 says {"member" if positive else "non-member"} for {v!r}, Python re says the opposite')
     return problems
